@@ -5,16 +5,22 @@
   mongomock by the history correspondence of harness/props/c06.py.
 
   DOMAIN.  `UniqInv` (Spec/Unique.lean): no two documents covered by a unique index have equal
-  keys.  It is stated where indexed paths run through sub-documents to scalars (`ScalarInv`;
-  outside lie the known findings `multikey`, `operator-like-value`: `step_uniq_inv_full_fails`).  On
-  that domain EVERY operation preserves `UniqInv`, with no further hypothesis
-  (`step_uniq_inv_partial`), and so does every history (`reachable_uniq_partial`).
+  keys.  It is stated where indexed paths run through sub-documents and end in a value that is not
+  an array — a scalar or an embedded document, whatever its keys look like — or are missing
+  (`ValueInv`; outside lies the known finding `multikey`: `step_uniq_inv_full_fails`).  On that
+  domain EVERY operation preserves `UniqInv`, with no further hypothesis (`step_uniq_inv_partial`),
+  and so does every history (`reachable_uniq_partial`).
 
-  (Until library commit a320edd the statement was false on that domain too: `_apply_update` stored
-  an edited document WITHOUT calling `_ensure_uniques` when it was Python-`==` to the one it
-  replaced — the repaired finding `partial-type-sensitive`; the theorems then carried the
-  hypotheses `KeysDistinctSym`, `WfDocs`, `PfStable`.  Its witness is kept as a regression example
-  below: the update is now rejected.)
+  Repaired in the library, each with its witness kept as a regression example below:
+  * `partial-type-sensitive` (d244509): `_apply_update` stored an edited document WITHOUT calling
+    `_ensure_uniques` when it was Python-`==` to the one it replaced; the theorems then carried the
+    hypotheses `KeysDistinctSym`, `WfDocs`, `PfStable`.
+  * `deadend-null` (69ced08, the matcher): an indexed path that runs into a scalar is a missing
+    field; such paths are inside `ValueInv` now.
+  * `operator-like-value` (9ef8b46): the look-up of `_ensure_uniques` was the query `{key: value}`,
+    which read an embedded document with `$`-prefixed keys as a query operator; it is now
+    `{key: {$eq: value}}` — the value is data.  The domain used to stop at scalar values
+    (`ScalarInv`); it now takes every embedded document (`Spec.isKeyable`).
 -/
 import Proofs.C06
 import Proofs.C06Ext
@@ -32,31 +38,32 @@ def step_uniq_inv_full : Prop :=
   ∀ (cfg : Cfg) (now : Int) (c : Coll) (op : Val), UniqInv c → UniqInv (stepColl cfg now c op).1
 
 /-- The unrestricted statement is FALSE of the code.  Witness (closed, evaluated in the kernel;
-    `Proofs.C06Lemmas.cexColl`, `cexOp`): unique index on `a`, document
-    `{_id: 1, a: {$size: "x"}}`, `insert_one({_id: 2, a: {$size: "x"}})` — the same key, but the
-    look-up `{a: {$size: "x"}}` of `_ensure_uniques` reads the stored value as the operator
-    `$size`, matches nothing, and the insert is accepted (known finding `operator-like-value`).
-    Array-valued keys (known finding `multikey`) lie outside `ScalarInv` as well.  (The former
-    witness — a dotted index path dead-ending in a scalar, finding `deadend-null` — was repaired
-    together with the matcher.) -/
+    `Proofs.C06Lemmas.cexColl`, `cexOp`): unique index on `a.b`, document `{_id: 1, a: [{b: 1}]}`,
+    `insert_one({_id: 2, a: [{b: 1}]})` — the same key however one reads it (the multikey key `1`;
+    or null, as `get_value_by_dot` finds no `a.b`), but the look-up `{a.b: {$eq: null}}` of
+    `_ensure_uniques` is answered by the matcher, which walks into the array, and the insert is
+    accepted (known finding `multikey`: arrays at or along an indexed path lie outside
+    `ValueInv`).  (The former witnesses — a dotted index path dead-ending in a scalar, finding
+    `deadend-null`; a value `{$size: "x"}` read as a query operator, finding `operator-like-value`
+    — were repaired in the library and are inside the domain now.) -/
 theorem step_uniq_inv_full_fails : ¬ step_uniq_inv_full := Proofs.C06.step_uniq_inv_full_false
 
 /-- **Every operation preserves uniqueness** — whatever write path is taken (insert, insert_many,
     update, replacement, upsert; the "modified" and the "unchanged by `==`" branch of an update),
     successful or rejected, and for delete, the reads, index creation and removal — PROVIDED the
-    resulting collection is in the scalar-key domain (`ScalarInv`; excluded: known findings
-    `multikey`, `operator-like-value`).
-    Nothing is assumed of the documents BEFORE the operation (not even `ScalarInv c`), of the
+    resulting collection is in the value-key domain (`ValueInv`: indexed paths end in scalars or
+    embedded documents; excluded: known finding `multikey`).
+    Nothing is assumed of the documents BEFORE the operation (not even `ValueInv c`), of the
     store keys, of the partial filters, nor of the operation. -/
 theorem step_uniq_inv_partial (cfg : Cfg) (now : Int) (c : Coll) (op : Val)
-    (hu : UniqInv c) (hs' : ScalarInv (stepColl cfg now c op).1) :
+    (hu : UniqInv c) (hs' : ValueInv (stepColl cfg now c op).1) :
     UniqInv (stepColl cfg now c op).1 :=
   Proofs.C06.step_uniq_inv_alt cfg now c op hu hs'
 
 /-- For a concrete state and operation the hypotheses of `step_uniq_inv_partial` can be
-    discharged by evaluation (`uniqB`, `scalB` decide `UniqInv`, `ScalarInv`). -/
+    discharged by evaluation (`uniqB`, `valB` decide `UniqInv`, `ValueInv`). -/
 theorem step_uniq_inv_check (cfg : Cfg) (now : Int) (c : Coll) (op : Val)
-    (h : (Proofs.C06Lemmas.uniqB c && Proofs.C06Lemmas.scalB (stepColl cfg now c op).1) = true) :
+    (h : (Proofs.C06Lemmas.uniqB c && Proofs.C06Lemmas.valB (stepColl cfg now c op).1) = true) :
     UniqInv (stepColl cfg now c op).1 :=
   Proofs.C06.step_uniq_inv_check cfg now c op h
 
@@ -71,6 +78,24 @@ example : UniqInv (stepColl {} 0
                   Index.mk "a.b_1_c_-1" [("a.b", .int 1), ("c", .int (-1))] true true none none] }
     (.arr [.str "update_many", .doc [], .doc [("$set", .doc [("k", .int 9)])], .bool false])).1 :=
   step_uniq_inv_check _ _ _ _ (by decide +kernel)
+
+/-- regression example (the witness of the repaired finding `operator-like-value`,
+    `Proofs.C06Lemmas.olvColl`, `olvOp`, `olvOp2`): unique index on `a`, document
+    `{_id: 1, a: {$size: "x"}}`.  `insert_one({_id: 2, a: {$size: "x"}})` is rejected with
+    DuplicateKeyError and stores nothing; `insert_one({_id: 2, a: {$foo: 1}})` (which used to raise
+    OperationFailure, "unknown operator") is accepted; both collections are in the domain and the
+    invariant holds (by the theorem). -/
+example :
+    ValueInv Proofs.C06Lemmas.olvColl ∧
+    UniqInv (stepColl {} 0 Proofs.C06Lemmas.olvColl Proofs.C06Lemmas.olvOp).1 ∧
+    UniqInv (stepColl {} 0 Proofs.C06Lemmas.olvColl Proofs.C06Lemmas.olvOp2).1 ∧
+    (match (stepColl {} 0 Proofs.C06Lemmas.olvColl Proofs.C06Lemmas.olvOp).2 with
+     | .err .dupKey => true | _ => false) = true ∧
+    (stepColl {} 0 Proofs.C06Lemmas.olvColl Proofs.C06Lemmas.olvOp).1.docs.length = 1 ∧
+    (stepColl {} 0 Proofs.C06Lemmas.olvColl Proofs.C06Lemmas.olvOp2).2.isErr = false :=
+  ⟨(Proofs.C06Lemmas.valB_iff _).1 Proofs.C06Lemmas.olv_before.2,
+   step_uniq_inv_check _ _ _ _ (by decide +kernel), step_uniq_inv_check _ _ _ _ (by decide +kernel),
+   Proofs.C06Lemmas.olv_after.1, Proofs.C06Lemmas.olv_after.2.1, Proofs.C06Lemmas.olv_after.2.2.1⟩
 
 /-- regression example (the witness of the repaired finding `partial-type-sensitive`,
     `Proofs.C06Lemmas.ptsColl`, `ptsOp`): unique index on `k` with
@@ -90,19 +115,19 @@ example :
 
 /-- **In every reachable state** (any history from the empty collection, `run`: every step is
     followed by the harness's observation) no two documents covered by a unique index have equal
-    keys, PROVIDED the final state is in the scalar-key domain (`ScalarInv`).  The intermediate
-    states need NOT be in the scalar-key domain (a document with an array-valued key that is later
+    keys, PROVIDED the final state is in the value-key domain (`ValueInv`).  The intermediate
+    states need NOT be in the value-key domain (a document with an array-valued key that is later
     deleted, expired or overwritten does no harm): the proof carries "uniqueness among the
-    scalar-keyed, covered documents", which every operation preserves with no hypothesis at all
+    value-keyed, covered documents", which every operation preserves with no hypothesis at all
     (`Proofs.C06.step_carried`). -/
 theorem reachable_uniq_partial (cfg : Cfg) (ops : List Val)
-    (hs : ScalarInv (run cfg ops).2.c) : UniqInv (run cfg ops).2.c :=
+    (hs : ValueInv (run cfg ops).2.c) : UniqInv (run cfg ops).2.c :=
   Proofs.C06.reachable_uniq_alt cfg ops hs
 
 /-- For a concrete history the hypothesis of `reachable_uniq_partial` can be discharged by
     evaluation. -/
 theorem reachable_uniq_check (cfg : Cfg) (ops : List Val)
-    (h : Proofs.C06Lemmas.scalB (run cfg ops).2.c = true) : UniqInv (run cfg ops).2.c :=
+    (h : Proofs.C06Lemmas.valB (run cfg ops).2.c = true) : UniqInv (run cfg ops).2.c :=
   Proofs.C06.reachable_uniq_check cfg ops h
 
 /-- the history used below: unique index, inserts (one rejected: `5 == 5.0`), an unordered
@@ -142,8 +167,8 @@ example : (run {} demoHistory).1.map (fun r => r.1.isErr) =
 /-- the first formulation of the rejection theorem: "… is rejected with a WriteError" -/
 def dup_write_rejected_full : Prop :=
   ∀ (now : Int) (c : Coll) (d : Val) (ix : Index) (p : Val × Val),
-    ScalarInv c → ix ∈ c.indexes → ix.unique = true → c.ttlIndexes = [] → p ∈ c.docs →
-    covers ix p.2 = true → covers ix (patchDT d) = true → scalarKeys ix (patchDT d) = true →
+    ValueInv c → ix ∈ c.indexes → ix.unique = true → c.ttlIndexes = [] → p ∈ c.docs →
+    covers ix p.2 = true → covers ix (patchDT d) = true → valueKeys ix (patchDT d) = true →
     keyEq (keyVals ix p.2) (keyVals ix (patchDT d)) = true →
     (∃ fs, d = .doc fs ∧ dhas "_id" fs = true) →
     ∃ e, insertDoc now c d = .error e ∧ e.isWriteError = true
@@ -161,9 +186,9 @@ theorem dup_write_rejected_full_fails : ¬ dup_write_rejected_full :=
     indexes and documents are.  (The collection is left as the expiry pass alone leaves it:
     C08.) -/
 theorem dup_write_rejected_partial (now : Int) (c : Coll) (d : Val) (ix : Index) (p : Val × Val)
-    (hs : ScalarInv c) (hix : ix ∈ c.indexes) (hu : ix.unique = true) (hnt : c.ttlIndexes = [])
+    (hs : ValueInv c) (hix : ix ∈ c.indexes) (hu : ix.unique = true) (hnt : c.ttlIndexes = [])
     (hp : p ∈ c.docs) (hcp : covers ix p.2 = true) (hcd : covers ix (patchDT d) = true)
-    (hsd : scalarKeys ix (patchDT d) = true)
+    (hsd : valueKeys ix (patchDT d) = true)
     (heq : keyEq (keyVals ix p.2) (keyVals ix (patchDT d)) = true)
     (hid : ∃ fs, d = .doc fs ∧ dhas "_id" fs = true) :
     ∃ e, insertDoc now c d = .error e :=
@@ -173,9 +198,9 @@ theorem dup_write_rejected_partial (now : Int) (c : Coll) (d : Val) (ix : Index)
     TypeError), `ix` is the only unique index (`hone`; excluded: another unique index whose own
     query raises first) and the partial filter of `ix` raises on no stored document (`hpf`). -/
 theorem dup_write_rejected_dupkey (now : Int) (c : Coll) (d : Val) (ix : Index) (p : Val × Val)
-    (hs : ScalarInv c) (hix : ix ∈ c.indexes) (hu : ix.unique = true) (hnt : c.ttlIndexes = [])
+    (hs : ValueInv c) (hix : ix ∈ c.indexes) (hu : ix.unique = true) (hnt : c.ttlIndexes = [])
     (hp : p ∈ c.docs) (hcp : covers ix p.2 = true) (hcd : covers ix (patchDT d) = true)
-    (hsd : scalarKeys ix (patchDT d) = true)
+    (hsd : valueKeys ix (patchDT d) = true)
     (heq : keyEq (keyVals ix p.2) (keyVals ix (patchDT d)) = true)
     (hid : ∃ fs, d = .doc fs ∧ dhas "_id" fs = true)
     (hk : ∃ k, storeKey (idOfDoc (patchDT d)) = .ok k)
@@ -201,7 +226,7 @@ example : insertDoc 0 demoColl (.doc [("_id", .int 3), ("k", .dbl 5 0), ("live",
     .error .dupKey :=
   dup_write_rejected_dupkey 0 demoColl _ demoIx
     (.int 1, .doc [("_id", .int 1), ("k", .int 5), ("live", .bool true)])
-    ((Proofs.C06Lemmas.scalB_iff _).1 (by decide +kernel)) (by simp [demoColl]) rfl rfl
+    ((Proofs.C06Lemmas.valB_iff _).1 (by decide +kernel)) (by simp [demoColl]) rfl rfl
     (by simp [demoColl]) (by decide +kernel) (by decide +kernel) (by decide +kernel)
     (by decide +kernel) ⟨_, rfl, by decide +kernel⟩ ⟨.int 3, rfl⟩
     (by
@@ -218,14 +243,72 @@ example : insertDoc 0 demoColl (.doc [("_id", .int 3), ("k", .dbl 5 0), ("live",
       · exact ⟨true, by decide +kernel⟩
       · exact ⟨false, by decide +kernel⟩)
 
+/-! ### the look-up compares values as data (after library commit 9ef8b46) -/
+
+/-- **The look-up `_ensure_uniques` issues for a new document, `{key: {$eq: value}, …}`, answers
+    on a stored document `e` exactly "the index key of `e` equals the index key of the new
+    document"** — provided the indexed paths of the STORED document are value paths (`valueKeys`).
+    NOTHING is asked of the new document: whatever its indexed values are — scalars, embedded
+    documents with `$`-prefixed keys (`{$size: "x"}`, `{$foo: 1}`, `{$in: 3}`), arrays — they are
+    operands of `$eq`, i.e. data, and the look-up never raises.  (Before the repair the look-up was
+    `{key: value}`: a `$`-keyed value was run as a query operator — known finding
+    `operator-like-value`, now fixed — and this statement was false.) -/
+theorem lookup_is_key_equality (ix : Index) (new e : Val) (he : valueKeys ix e = true) :
+    applyFields (ix.keys.map (fun k => (k.1, eqCond (match getByDot new k.1 with
+      | .ok v => v
+      | .error _ => .null)))) e = .ok (keyEq (keyVals ix e) (keyVals ix new)) :=
+  Proofs.C06Lemmas.applyFields_kw ix.keys new e (Proofs.C06Lemmas.okKeys_of_valueKeys he)
+
+/-- … and these are the `find_kwargs` the code builds (distinct field names, new document in the
+    domain). -/
+theorem lookup_kwargs (ix : Index) (new : Val) (hd : distinctFields ix = true)
+    (hn : valueKeys ix new = true) :
+    valuesFor ix.keys new = .ok (ix.keys.map (fun k => (k.1, eqCond (match getByDot new k.1 with
+      | .ok v => v
+      | .error _ => .null)))) :=
+  Proofs.C06Lemmas.valuesFor_ok ix.keys new (Proofs.C06Lemmas.okKeys_of_valueKeys hn)
+    (Proofs.C06Lemmas.distinctFields_nodup hd)
+
+/-- non-vacuity of both: compound index on `(a, c.d)`; the stored document holds `{$size: "x"}`
+    under `a`, the new one `{$size: "x"}` and an ARRAY under `c.d` — the look-up answers `false`
+    (keys differ in the second component) without raising; against a new document with the same
+    key it answers `true` -/
+example :
+    let ix : Index := Index.mk "i" [("a", .int 1), ("c.d", .int 1)] true false none none
+    let e : Val := .doc [("_id", .int 1), ("a", .doc [("$size", .str "x")]), ("c", .doc [("d", .int 2)])]
+    let new1 : Val := .doc [("_id", .int 2), ("a", .doc [("$size", .str "x")]), ("c", .doc [("d", .arr [.int 2])])]
+    let new2 : Val := .doc [("_id", .int 3), ("c", .doc [("d", .dbl 2 0)]), ("a", .doc [("$size", .str "x")])]
+    (valueKeys ix e && distinctFields ix && valueKeys ix new2 && !valueKeys ix new1 &&
+      !keyEq (keyVals ix e) (keyVals ix new1) && keyEq (keyVals ix e) (keyVals ix new2)) = true := by
+  decide +kernel
+
+/-- **An embedded document is an index key like any other value**: under the hypotheses of
+    `dup_write_rejected_dupkey` — which ask nothing of the SHAPE of the indexed values beyond "not
+    an array" — two documents whose indexed value is the same embedded document, `$`-prefixed keys
+    or not, cannot both be inserted.  Instance on the former witness of `operator-like-value`. -/
+theorem dollar_keyed_value_rejected :
+    insertDoc 0 Proofs.C06Lemmas.olvColl
+      (.doc [("_id", .int 2), ("a", .doc [("$size", .str "x")])]) = .error .dupKey :=
+  dup_write_rejected_dupkey 0 Proofs.C06Lemmas.olvColl _ Proofs.C06Lemmas.olvIx
+    (.int 1, .doc [("_id", .int 1), ("a", .doc [("$size", .str "x")])])
+    ((Proofs.C06Lemmas.valB_iff _).1 Proofs.C06Lemmas.olv_before.2)
+    (by simp [Proofs.C06Lemmas.olvColl]) rfl rfl (by simp [Proofs.C06Lemmas.olvColl])
+    (by decide +kernel) (by decide +kernel) (by decide +kernel) (by decide +kernel)
+    ⟨_, rfl, by decide +kernel⟩ ⟨.int 2, rfl⟩
+    (by
+      intro i hi _
+      simp only [Proofs.C06Lemmas.olvColl, List.mem_cons, List.not_mem_nil, or_false] at hi
+      exact hi)
+    (by intro f hf; cases hf)
+
 /-! ### `create_index` -/
 
 /-- Creating a unique index over data that already contains duplicates fails with
     DuplicateKeyError and leaves no index behind (non-sparse, non-partial index under a new name,
-    scalar keys; no TTL index). -/
+    value keys: scalars or embedded documents; no TTL index). -/
 theorem create_over_dups_fails_clean (now : Int) (c : Coll) (ix : Index) (a b : Val × Val)
     (hu : ix.unique = true) (hnt : c.ttlIndexes = []) (hnew : ∀ i ∈ c.indexes, i.name ≠ ix.name)
-    (hsc : ∀ p ∈ c.docs, scalarKeys ix p.2 = true) (hpf : ix.partialFilter = none)
+    (hsc : ∀ p ∈ c.docs, valueKeys ix p.2 = true) (hpf : ix.partialFilter = none)
     (hns : ix.sparse = false)
     (hab : [a, b].Sublist c.docs)
     (heq : keyEq (keyVals ix a.2) (keyVals ix b.2) = true) :
@@ -279,38 +362,38 @@ example :
 _delete`, `bulk_write` and the bulk builder to the operations of `stepColl`; `runX`
 (Spec/HistoryExt.lean) is `run` over `stepXS` — what the correspondence harness drives.  The
 theorems below lift `step_uniq_inv_partial` / `reachable_uniq_partial` to them, with the same
-single hypothesis: the RESULTING collection is in the scalar-key domain.  Nothing is asked of the
+single hypothesis: the RESULTING collection is in the value-key domain.  Nothing is asked of the
 collections between the requests of a bulk. -/
 
 /-- The unrestricted statement for the extended step. -/
 def stepX_uniq_inv_full : Prop :=
   ∀ (cfg : Cfg) (now : Int) (c : Coll) (op : Val), UniqInv c → UniqInv (stepX cfg now c op).1
 
-/-- It is FALSE of the code, for the reason `step_uniq_inv_full` is (known finding
-    `operator-like-value`): the witness of `step_uniq_inv_full_fails`, issued as
-    `bulk_write([InsertOne({_id: 2, a: {$size: "x"}})])`. -/
+/-- It is FALSE of the code, for the reason `step_uniq_inv_full` is (known finding `multikey`):
+    the witness of `step_uniq_inv_full_fails`, issued as
+    `bulk_write([InsertOne({_id: 2, a: [{b: 1}]})])`. -/
 theorem stepX_uniq_inv_full_fails : ¬ stepX_uniq_inv_full := Proofs.C06Ext.stepX_uniq_false
 
 /-- **Every modelled operation preserves uniqueness** — the basic ones, `find_one`,
     `find_one_and_update / _replace / _delete` (with or without upsert, sort, projection,
     `after`), `bulk_write` (ordered or not, whatever requests fail, aborted or not) and a bulk
     builder executed any number of times — PROVIDED the resulting collection is in the
-    scalar-key domain (`ScalarInv`; excluded: known findings `multikey`, `operator-like-value`).
+    value-key domain (`ValueInv`; excluded: known finding `multikey`).
     Nothing is assumed of the collection before, of the collections between the requests of a
     bulk, nor of the operation. -/
 theorem stepX_uniq_inv_partial (cfg : Cfg) (now : Int) (c : Coll) (op : Val)
-    (hu : UniqInv c) (hs' : ScalarInv (stepX cfg now c op).1) : UniqInv (stepX cfg now c op).1 :=
+    (hu : UniqInv c) (hs' : ValueInv (stepX cfg now c op).1) : UniqInv (stepX cfg now c op).1 :=
   Proofs.C06Ext.stepX_uniq_inv_alt cfg now c op hu hs'
 
 /-- … on states with a clock (`stepXS`). -/
 theorem stepXS_uniq_inv_partial (cfg : Cfg) (s : St) (op : Val)
-    (hu : UniqInv s.c) (hs' : ScalarInv (stepXS cfg s op).1.c) : UniqInv (stepXS cfg s op).1.c :=
+    (hu : UniqInv s.c) (hs' : ValueInv (stepXS cfg s op).1.c) : UniqInv (stepXS cfg s op).1.c :=
   Proofs.C06Ext.stepXS_uniq_inv_alt cfg s op hu hs'
 
 /-- For a concrete state and operation the hypotheses of `stepX_uniq_inv_partial` can be
     discharged by evaluation. -/
 theorem stepX_uniq_inv_check (cfg : Cfg) (now : Int) (c : Coll) (op : Val)
-    (h : (Proofs.C06Lemmas.uniqB c && Proofs.C06Lemmas.scalB (stepX cfg now c op).1) = true) :
+    (h : (Proofs.C06Lemmas.uniqB c && Proofs.C06Lemmas.valB (stepX cfg now c op).1) = true) :
     UniqInv (stepX cfg now c op).1 :=
   Proofs.C06Ext.stepX_uniq_inv_check cfg now c op h
 
@@ -366,18 +449,18 @@ example :
 /-- **In every state reachable through ANY of the modelled operations** (`runX`: any history
     from the empty collection over the basic operations, `find_one`, the find-and-modify family,
     `bulk_write` and the bulk builder) no two documents covered by a unique index have equal keys,
-    PROVIDED the final state is in the scalar-key domain (`ScalarInv`).  Neither the states along
+    PROVIDED the final state is in the value-key domain (`ValueInv`).  Neither the states along
     the history nor the collections between the requests of its bulks need be in that domain:
-    the proof carries "uniqueness among the scalar-keyed, covered documents", which every
+    the proof carries "uniqueness among the value-keyed, covered documents", which every
     operation preserves with no hypothesis (`Proofs.C06Ext.stepX_carried`). -/
 theorem reachableX_uniq_partial (cfg : Cfg) (ops : List Val)
-    (hs : ScalarInv (runX cfg ops).2.c) : UniqInv (runX cfg ops).2.c :=
+    (hs : ValueInv (runX cfg ops).2.c) : UniqInv (runX cfg ops).2.c :=
   Proofs.C06Ext.reachableX_uniq_alt cfg ops hs
 
 /-- For a concrete history the hypothesis of `reachableX_uniq_partial` can be discharged by
     evaluation. -/
 theorem reachableX_uniq_check (cfg : Cfg) (ops : List Val)
-    (h : Proofs.C06Lemmas.scalB (runX cfg ops).2.c = true) : UniqInv (runX cfg ops).2.c :=
+    (h : Proofs.C06Lemmas.valB (runX cfg ops).2.c = true) : UniqInv (runX cfg ops).2.c :=
   Proofs.C06Ext.reachableX_uniq_check cfg ops h
 
 /-- the history used below: a unique index, an insert, an upserting `find_one_and_update`, one
@@ -428,9 +511,9 @@ example :
     uniqueness check refused it, sets that flag once more). -/
 theorem bulk_dup_write_rejected (cfg : Cfg) (now : Int) (c : Coll) (idx : Nat) (d : Val)
     (ix : Index) (p : Val × Val) (hr : c.Recorded)
-    (hs : ScalarInv c) (hix : ix ∈ c.indexes) (hu : ix.unique = true) (hnt : c.ttlIndexes = [])
+    (hs : ValueInv c) (hix : ix ∈ c.indexes) (hu : ix.unique = true) (hnt : c.ttlIndexes = [])
     (hp : p ∈ c.docs) (hcp : covers ix p.2 = true) (hcd : covers ix (patchDT d) = true)
-    (hsd : scalarKeys ix (patchDT d) = true)
+    (hsd : valueKeys ix (patchDT d) = true)
     (heq : keyEq (keyVals ix p.2) (keyVals ix (patchDT d)) = true)
     (hid : ∃ fs, d = .doc fs ∧ dhas "_id" fs = true)
     (hk : ∃ k, storeKey (idOfDoc (patchDT d)) = .ok k)
@@ -463,7 +546,7 @@ example : bulkLoop {} 0 true
   bulk_dup_write_error_at_index {} 0 true demoColl 4 _ _ {}
     (bulk_dup_write_rejected {} 0 demoColl 4 _ demoIx
       (.int 1, .doc [("_id", .int 1), ("k", .int 5), ("live", .bool true)]) (fun _ => rfl)
-      ((Proofs.C06Lemmas.scalB_iff _).1 (by decide +kernel)) (by simp [demoColl]) rfl rfl
+      ((Proofs.C06Lemmas.valB_iff _).1 (by decide +kernel)) (by simp [demoColl]) rfl rfl
       (by simp [demoColl]) (by decide +kernel) (by decide +kernel) (by decide +kernel)
       (by decide +kernel) ⟨_, rfl, by decide +kernel⟩ ⟨.int 3, rfl⟩
       (by
